@@ -334,6 +334,7 @@ def _sleep(d):
 # scheduler
 # ---------------------------------------------------------------------------
 
+TIMEOUT_MAX = 9223372036.0  # threading.TIMEOUT_MAX of CPython on Linux
 ADV_MAX = 1000  # adversarial clock: largest step of one clock read (virtual seconds)
 
 
@@ -673,6 +674,12 @@ class Scheduler(object):
         else:
             timeout = None
         if timeout is not None:
+            # like the real lock: a timeout beyond threading.TIMEOUT_MAX is an error, not a long wait
+            big = timeout > TIMEOUT_MAX
+            if isinstance(big, SBool):
+                big = bool(big)
+            if big:
+                raise OverflowError("timeout value is too large")
             self._mk_deadline(me, timeout)
         me.pending = ("acq", lock, blocking)
         self._yield(me)
